@@ -6,6 +6,7 @@ workers owning real result pipes; TLC judges every real run with the C07/C08 ope
 import functools
 import json
 import os
+import random
 import re
 import types
 
@@ -48,7 +49,8 @@ def mc_cfg(**kw):
 # scripted environment
 # ----------------------------------------------------------------------------------------------
 class Driver:
-    def __init__(self, scn, h, cis):
+    def __init__(self, scn, h, cis, rng=None):
+        self.rng = rng                   # after a deviation from the model's schedule: which worker moves next (None = fixed fair order)
         self.scn = scn
         self.h = h                       # [[ci, kind, w], ...]
         self.cis = cis                   # expected call-ins [[kind, w, x], ...]
@@ -74,6 +76,8 @@ class Driver:
         if self.n_callins > self.budget:
             raise Hang('call-in budget exceeded (%d): the pool does not terminate' % self.budget)
         k = self.n_callins
+        if self.rng is not None and self.deviated:
+            self.hi = len(self.h)        # the model's schedule has lost its meaning: from here on the (seeded) random environment
         while self.hi < len(self.h) and self.h[self.hi][0] <= k - 1:
             _, ekind, ew = self.h[self.hi]
             self.hi += 1
@@ -111,11 +115,15 @@ class Driver:
             if any(sw.readable() for sw in self.workers.values()):
                 return
             progressed = False
-            for sw in self.workers.values():
+            order = list(self.workers.values())
+            if self.rng is not None:
+                self.rng.shuffle(order)
+            for sw in order:
                 if sw.st == 'run' and sw.inbox and not getattr(sw, 'frozen', False):
                     self.env_step('step', sw.id)
                     progressed = True
-                    break
+                    if self.rng is None or self.rng.random() < 0.5:
+                        break                      # (with an rng: sometimes several workers answer before the pool looks again)
                 if sw.st == 'dying':
                     sw.st = 'dead'
             if not progressed:
@@ -210,14 +218,14 @@ class ScriptedWorker:
         return 'SW%d' % self.id
 
 
-def run_real(scn, h, cis):
+def run_real(scn, h, cis, rng=None):
     """One real Pool.run driven by the environment schedule h."""
     ensure_repo_on_path()
     import logging
     logging.disable(logging.CRITICAL)
     from pyworkers import pool as pool_mod
     pool_mod.time = types.SimpleNamespace(sleep=lambda s: None)
-    drv = Driver(scn, h, cis)
+    drv = Driver(scn, h, cis, rng)
 
     class P(pool_mod.Pool):
         def _get_all_queues(self):
@@ -358,6 +366,7 @@ def _configs(tier):
     # a worker that answers, then dies on a poison input, is offered its next input while it is dying (BrokenPipe, still alive)
     # and a healthy worker finishes the run: the input whose enqueue failed must not get lost
     add('W2 N5 extra1 bad{2} after its first answer', n=5, bad=(2,), bad_after=1, kills=0)
+    add('W3 N7 extra1 bad{2} after its first answer', W=(1, 2, 3), n=7, bad=(2,), bad_after=1, kills=0, mc=False)
     # return_results=False (results only through the callback) and a per-worker input callable as second source
     add('W2 N3 extra1 poison{2} kill1 return_results=False', poison=(2,), retres=False)
     add('W2 N3 extra1 poison{2} kill1 per-worker callable', poison=(2,), callsrc=True)
@@ -494,7 +503,7 @@ def run(prop, tier, replay=None):
 
     if replay is not None:
         rp = replay['replay']
-        obs, drv = run_real(rp['scn'], rp['h'], rp['cis'])
+        obs, drv = run_real(rp['scn'], rp['h'], rp['cis'], rng=random.Random(rp['rng']) if rp.get('rng') else None)
         rec = {'id': 'replay', 'scn': _jscn(rp['scn']), 'obs': obs}
         fails, _ = tlc.judge('PoolJudge', [rec], name='replay')
         print('replayed:', json.dumps(rec), 'call-ins:', drv.real_cis)
@@ -505,6 +514,7 @@ def run(prop, tier, replay=None):
 
     violations, drift = [], []
     records, meta = [], {}
+    extra_runs = {}
     n_paths = 0
     invs = ['Inv_NoInternalError', 'Inv_ExactlyOnce', 'Inv_Terminates', 'Inv_NotStuck', 'Inv_Genuine', 'Inv_CallbackSeesAll',
             'Inv_RetIffRetRes', 'Inv_GenOnce'] if prop == 'C07' else \
@@ -575,6 +585,18 @@ def run(prop, tier, replay=None):
                                  'call-ins model %s real %s)' % (label, m_outcome, m_ret, obs['outcome'], obs['ret'], m_cb, drv.cbres,
                                                                  m_gen, drv.gen_calls, cis[:8], drv.first_cis[:8]))
                 meta[rid]['drift'] = True
+                # the real pool has left the model's behaviour: what the tree does from there on depends on the order in which the
+                # workers answer, which the model's schedule no longer dictates - play the same prefix a few more times with a
+                # seeded random order of answers and judge those runs as well (budget: 60 such re-plays per configuration)
+                if extra_runs.get(label, 0) < 60 and 'refuse' not in label:
+                    for k in range(3):
+                        extra_runs[label] = extra_runs.get(label, 0) + 1
+                        rseed = '%s/%s/%d' % (seed(), rid, k)
+                        o2, d2 = run_real(scn, h, cis, rng=random.Random(rseed))
+                        if o2['outcome'] != 'aborted':
+                            rid3 = '%sx%d' % (rid, k)
+                            records.append({'id': rid3, 'scn': _jscn(scn), 'obs': o2})
+                            meta[rid3] = {'scn': scn, 'h': h, 'cis': cis, 'rng': rseed, 'label': label + ' / answers in a random order after the deviation'}
 
     # 1c. thorough: the upper end of the quantifier (3 workers, 6 inputs, extra pending 2, 3 deaths incl. a poison input) by simulation
     if tier == 'thorough':
@@ -609,7 +631,7 @@ def run(prop, tier, replay=None):
         violations.append(Violation(prop, signature(prop, clauses, m['scn'], obs),
                                     'Pool.run (%s): %s fails: outcome %s, results %s, alive at end %s; environment schedule %s'
                                     % (m['label'], ','.join(clauses), obs['outcome'], obs['ret'], obs['alive'], m['h']),
-                                    {'scn': m['scn'], 'h': m['h'], 'cis': m['cis']}))
+                                    {'scn': m['scn'], 'h': m['h'], 'cis': m['cis'], 'rng': m.get('rng')}))
     ndrift = sum(1 for m in meta.values() if m.get('drift'))
     ev.cov['traces_validated_against_impl'] = len(records) - ndrift - sum(1 for r in real if not r['accepted'])
     ev.cov['evaluations'] = len(records)
